@@ -15,7 +15,7 @@ def run(ctx, replay):
         raise Inconclusive("replay: re-run `./check C11 quick` with VERIF_SEED from meta.json (cases are derived from the seed)")
     out = ctx.sub("codes")
     r = ctx.vh(["codeobs", "-cli", ctx.cli(), "-node", runcamp.NODE22, "-runcodes", os.path.join(VERIF, "harness", "runcodes.js"),
-                "-out", out, "-seed", ctx.seed, "-n", ctx.pick(60, 600), "-shards", 16], timeout=3300)
+                "-out", out, "-seed", ctx.seed, "-n", ctx.pick(60, 2500), "-shards", 16], timeout=3300)
     log(r.stdout.strip().splitlines()[-1])
     shards = sorted(glob.glob(os.path.join(out, "codes-*.json")))
     results = run_tlc_shards(ctx, "ConfCodes.tla", "ConfCodes.cfg", shards, timeout=ctx.pick(600, 3000), extra=["-continue"])
